@@ -11,6 +11,7 @@ def rust(e):
     c, a = e["c"], e["a"]
     if c in INTS or c in ("bool", "char", "str"): return c
     if c == "String": return "String"
+    if c == "Local": return "L%d" % e["n"]
     if c == "Duration": return "core::time::Duration"
     if c in NONZERO: return "core::num::" + c
     if c in ("Lsb0", "Msb0"): return "bitvec::order::" + c
@@ -28,6 +29,15 @@ def rust(e):
             "BinaryHeap": "std::collections::BinaryHeap", "Range": "core::ops::Range", "RangeInclusive": "core::ops::RangeInclusive"}[c]
     return "%s<%s>" % (full, ", ".join(rust(x) for x in a))
 
+LOCAL = """    {
+    #[derive(scale::Encode)] struct Local(%(t)s);
+    impl scale_info::TypeInfo for Local { type Identity = Self; fn type_info() -> scale_info::Type {
+        scale_info::Type::builder().path(scale_info::Path::new("Local", "user")).composite(scale_info::build::Fields::unnamed().field(|f| f.ty::<%(t)s>())) } }
+    impl vh::val::Val for Local {
+        fn gen(rng: &mut rand::rngs::StdRng, d: u32) -> Self { Local(vh::val::Val::gen(rng, d + 1)) }
+        fn tree(&self) -> serde_json::Value { vh::val::unnamed(vec![vh::val::Val::tree(&self.0)]) } }
+    type L%(k)d = Local;"""
+
 def has(e, cs):
     return e["c"] in cs or any(has(x, cs) for x in e["a"])
 
@@ -36,6 +46,7 @@ def valued(e, top=True, in_tuple=False):
     c, a = e["c"], e["a"]
     if c in INTS or c in ("bool", "String", "Duration") or c in NONZERO: return True
     if c in ("char", "str", "Slice", "Lsb0", "Msb0"): return False
+    if c == "Local": return True
     if c == "PhantomData": return top or in_tuple       # zero bytes; erased from tuples
     if c == "Tuple": return len(a) <= 18 and all(valued(x, False, True) for x in a)
     if c == "Array": return valued(a[0], False)
@@ -61,13 +72,16 @@ def key(e):
 def program(exprs, seed, nvals):
     """exprs: list of ASTs, already closed under children. Expression 0 must be PhantomData<()>."""
     L = ["use vh::texpr::Ctx;", "fn main() {", "    let mut c = Ctx::new(%d, %d);" % (seed, nvals)]
+    # two user types with the SAME name in two blocks of this one function (same type_name, same path, different identity)
+    for k, inner in ((1, "u8"), (2, "u16")):
+        L.append(LOCAL % {"k": k, "t": inner})
     for e in exprs:
         L.append("    c.expr::<%s>(r#\"%s\"#);" % (rust(e), json.dumps(e, separators=(",", ":"))))
     L.append("    c.finish_exprs();")
     for i, e in enumerate(exprs):
         if valued(e):
             L.append("    c.values::<%s>(%d);" % (rust(e), i))
-    L += ["    c.done();", "}"]
+    L += ["    c.done();", "    }}", "}"]
     return "\n".join(L) + "\n"
 
 PHANTOM0 = E("PhantomData", E("Tuple"))
